@@ -1093,9 +1093,28 @@ pub fn run<F: FnOnce() + Send + 'static>(cfg: RunConfig, main: F) -> RunResult {
         let leaked = st.threads.iter().filter(|t| t.leaked).count();
         (std::mem::take(&mut st.os_threads), leaked)
     };
+    let mut leaked = leaked;
     if leaked == 0 {
+        // Every thread reported that it is done; joining them is normally immediate. The join is bounded all the same:
+        // about once in 10^7 runs a thread was observed still parked here (the hand-shake above has a window that
+        // was not found), and an unbounded join then stalls the whole worker process until the watchdog kills it.
+        // A thread that does not come back within the bound is left parked for good, like the other leaked ones;
+        // the verdict of the run was computed before this point and does not depend on it.
         for h in handles {
-            let _ = h.join();
+            let t0 = std::time::Instant::now();
+            while !h.is_finished() && t0.elapsed() < std::time::Duration::from_secs(20) {
+                if t0.elapsed() < std::time::Duration::from_millis(2) {
+                    std::thread::yield_now();
+                } else {
+                    std::thread::sleep(std::time::Duration::from_millis(1));
+                }
+            }
+            if h.is_finished() {
+                let _ = h.join();
+            } else {
+                std::mem::forget(h);
+                leaked += 1;
+            }
         }
     } else {
         for h in handles {
